@@ -20,8 +20,10 @@ correspondence in `harness/props/c13.py`):
   annotated tree and keeps those cases out of the model's domain);
 * `ast.unparse`, `black.format_str` and the re-parse are AST-preserving on well-formed trees; on the ill-formed trees
   the rewrite can build (an `ast.arg` in a statement list, an `ast.arg` as a default value) the observed outcome is
-  modelled: `black` raises `InvalidInput` (nothing written) unless the `arg` is the first statement of the module or
-  the only statement of a class body, where the emitted text happens to be valid (`class K:p: str`);
+  modelled where it is determined by the tree: an `arg` stored as a default value always makes `black` raise
+  `InvalidInput` (nothing written); an `arg` that is the first statement of the module or the only statement of a class
+  body is emitted as valid text (`class K:p: str`); an `arg` elsewhere in a statement list is glued to the text of the
+  previous line and the outcome depends on that text — the model stops with `Err.argInBody` there;
 * `str.format` of the wrap template is modelled for templates whose only braces are `{output_param}` fields, and the
   substituted text is assumed to be a fixed point of `ast.unparse ∘ ast.parse` (templates in `unparse` normal form);
 * `--input-eval`: the evaluated value of the input variable is a parameter (CPython evaluates it).
@@ -44,7 +46,9 @@ inductive Err where
   | keyError
   | indexError
   | invalidOutput    -- black.InvalidInput: the rewritten tree does not unparse to valid source; nothing is written
-  | unparseable      -- the file IS written but is not valid Python (duplicate parameter name)
+  /-- the rewrite put an `ast.arg` into a statement list: `ast.unparse` glues its text to the previous line, and whether
+      that is valid source (`x: np.ndarray` + `self` = `x: np.ndarrayself`) or makes `black` raise depends on the text -/
+  | argInBody
   | unsupported      -- outside the model's domain
 deriving DecidableEq, Repr, Inhabited
 
@@ -270,7 +274,7 @@ def placeAsStmt (argOk : Bool) : Node → Stmt × Bool
       (match a.ann with
        | some t => .ann a.name t none
        | none => .expr a.name, false)
-    else (.other "<ast.arg>", true)
+    else (.other "<ast.arg>", true)   -- `true`: `Err.argInBody`
 
 /-- `generic_visit` reaching the `ast.arg` nodes of an `AsyncFunctionDef`: replaced by the raw replacement node -/
 def visitAsyncArgs (fnLoc search : Loc) (st : RState) : List Arg → List Arg × RState
@@ -286,7 +290,8 @@ def hit (search : Loc) (parent : Option String) (st : RState) (s : Stmt) : Bool 
   !st.replaced && st.err.isNone && locOf parent s == some search
 
 def place (argOk : Bool) (st : RState) : Stmt × RState :=
-  ((placeAsStmt argOk st.repl).1, { st with replaced := true, poisoned := st.poisoned || (placeAsStmt argOk st.repl).2 })
+  ((placeAsStmt argOk st.repl).1,
+   { st with replaced := true, err := if (placeAsStmt argOk st.repl).2 then some .argInBody else st.err })
 
 mutual
 /-- `NodeTransformer.visit` on a statement: `visit_FunctionDef` for `FunctionDef`, `generic_visit` otherwise -/
@@ -321,16 +326,6 @@ end
 def rewriteAtQuery (search : Loc) (repl : Node) (m : Module) : Module × RState :=
   visitList search none true { repl := repl } m
 
-mutual
-def stmtHasDup : Stmt → Bool
-  | .fn _ _ a b _ _ => !decide ((a.all.map (·.name)).Nodup) || listHasDup b
-  | .cls _ _ _ b _ => listHasDup b
-  | _ => false
-def listHasDup : List Stmt → Bool
-  | [] => false
-  | s :: ss => stmtHasDup s || listHasDup ss
-end
-
 /-- the rewrite followed by `assert rewrite_at_query.replaced is True` and the emit (`ast.unparse` + `black` + write) -/
 def rewriteChecked (search : Loc) (repl : Node) (m : Module) : Except Err Module :=
   let r := rewriteAtQuery search repl m
@@ -339,7 +334,6 @@ def rewriteChecked (search : Loc) (repl : Node) (m : Module) : Except Err Module
   | none =>
     if !r.2.replaced then .error .assertion
     else if r.2.poisoned then .error .invalidOutput
-    else if listHasDup r.1 then .error .unparseable
     else .ok r.1
 
 /-! ## 4. `ast_parse`: the module docstring is re-indented (`inspect.cleandoc` + `reindent`) -/
